@@ -24,6 +24,19 @@ SpanTimeNs(sp) ==
   BAdd(BMul(sp.ms, B1E6),
   BAdd(BMul(sp.us, B1E3), sp.ns)))))
 
+\* documented limits of the Span units (absolute values)
+LimY == 19998      LimMo == 239976      LimW == 1043497      LimD == 7304484      LimH == 175307616
+LimMi == BMul(BOf(175307616), BOf(60))
+LimS == BMul(LimMi, BOf(60))
+LimMs == BMul(LimS, BOf(1000))
+LimUs == BMul(LimMs, BOf(1000))
+LimNs == [s |-> 1, m |-> <<5807, 5477, 368, 3372, 922>>]      \* i64::MAX
+AbsI(i) == IF i < 0 THEN 0 - i ELSE i
+SpanInLimits(sp) ==
+  /\ AbsI(sp.y) <= LimY /\ AbsI(sp.mo) <= LimMo /\ AbsI(sp.w) <= LimW /\ AbsI(sp.d) <= LimD /\ AbsI(sp.h) <= LimH
+  /\ BLe(BAbs(sp.mi), LimMi) /\ BLe(BAbs(sp.s), LimS) /\ BLe(BAbs(sp.ms), LimMs)
+  /\ BLe(BAbs(sp.us), LimUs) /\ BLe(BAbs(sp.ns), LimNs)
+
 SpanNeg(sp) == [y |-> 0 - sp.y, mo |-> 0 - sp.mo, w |-> 0 - sp.w, d |-> 0 - sp.d, h |-> 0 - sp.h,
                 mi |-> BNeg(sp.mi), s |-> BNeg(sp.s), ms |-> BNeg(sp.ms), us |-> BNeg(sp.us), ns |-> BNeg(sp.ns)]
 SpanHasCalendar(sp) == sp.y # 0 \/ sp.mo # 0 \/ sp.w # 0 \/ sp.d # 0
